@@ -552,7 +552,8 @@ impl ChannelBase for Channel {
         // Also, given that we previous validated the commitment tx when we
         // got the counterparty signature for it, then we must have fulfilled
         // policy-revoke-new-commitment-valid
-        if commitment_number + 2 > next_holder_commit_num {
+        // (saturating, so that an out-of-range number cannot wrap around the bound)
+        if commitment_number.saturating_add(2) > next_holder_commit_num {
             let validator = self.validator();
             policy_err!(
                 validator,
@@ -573,7 +574,7 @@ impl ChannelBase for Channel {
     // policy error if the request is out of range
     fn get_per_commitment_secret_or_none(&self, commitment_number: u64) -> Option<SecretKey> {
         let next_holder_commit_num = self.enforcement_state.next_holder_commit_num;
-        if commitment_number + 2 > next_holder_commit_num {
+        if commitment_number.saturating_add(2) > next_holder_commit_num {
             warn!(
                 "get_per_commitment_secret_or_none: called past current revoked holder commitment \
                  implied by next_holder_commit_num: {} + 2 > {}",
